@@ -28,6 +28,17 @@ def specTime (s : Xml) (tag : String) : Option Nat :=
 def prefixSums (ds : List (Option Nat)) : List Nat :=
   (List.range ds.length).map (fun k => ((ds.take k).map (·.getD 0)).sum)
 
+/-- the note of an item, read from the document: the `text` child of the first element - in document
+    order, at any depth under the item's first `mosExternalMetadata/mosPayload` - that is a
+    `studioCommand` with `type="note"`; no payload, no such element or no `text` child: none -/
+def noteSpec (it : Xml) : Option String :=
+  match payloadOf it with
+  | none => none
+  | some p =>
+    match p.descendants.find? (fun c => c.tag == "studioCommand" && c.attr "type" == some "note") with
+    | none => none
+    | some n => Xml.childText (some n) "text"
+
 /-- C15: stories and items in document order with the IDs and slugs of the XML -/
 def holdsC15 (d : Xml) (v : RoView) : Bool :=
   let ss := storiesOfDoc d
@@ -37,21 +48,22 @@ def holdsC15 (d : Xml) (v : RoView) : Bool :=
     ss.map (fun s => (s.findall "item").map (fun it =>
       (Xml.childText (some it) "itemID", Xml.childText (some it) "itemSlug", Xml.childText (some it) "objType",
        Xml.childText (some it) "objID", Xml.childText (some it) "mosID"))) &&
+  v.stories.map (fun s => s.items.map (·.note)) == ss.map (fun s => (s.findall "item").map noteSpec) &&
   v.roSlug == (rcOf d).bind (fun rc => Xml.childText (some rc) "roSlug") &&
   v.completed == completed d &&
   -- absent optional data yields None: no roEdStart ⇒ no start; a story without payload has no duration
   (((rcOf d).bind (fun rc => rc.find "roEdStart")).isSome || v.start == none) &&
   (v.stories.zip ss).all (fun (sv, s) => (payloadOf s).isSome || sv.duration == none)
 
-/-- C16: every arithmetic relation, recomputed from the XML (unique story IDs assumed by the caller
-    for the offset clause) -/
-def holdsC16 (d : Xml) (v : RoView) (idsNodup : Bool) : Bool :=
+/-- C16: every arithmetic relation, recomputed from the XML; each story's offset is the sum of the
+    durations before it, whether or not story IDs repeat -/
+def holdsC16 (d : Xml) (v : RoView) : Bool :=
   let ss := storiesOfDoc d
   let ds := ss.map specDuration
   let roSt := (rcOf d).bind (fun rc => (Xml.childText (some rc) "roEdStart").bind parseTime)
   v.stories.map (·.duration) == ds &&
   v.start == roSt &&
-  (!idsNodup || v.stories.map (·.offset) == (prefixSums ds).map some) &&
+  v.stories.map (·.offset) == (prefixSums ds).map some &&
   v.duration == (if ds.all (·.isSome) then some ((ds.map (·.getD 0)).sum) else none) &&
   v.stop == (v.stories.getLast?).bind (·.stop) &&
   (v.stories.zip ss).all (fun (sv, s) =>
